@@ -306,7 +306,7 @@ REGISTRY = {
         "assumptions": COMMON_ASSUMPTIONS,
     },
     "C03": {
-        "rules": [inplace.rule_inplace_effect, inplace.rule_alias_spelling, inplace.rule_array_immut, inplace.rule_operator_pure],
+        "rules": [inplace.rule_inplace_effect, inplace.rule_alias_spelling, inplace.rule_array_immut, inplace.rule_operator_pure, inplace.rule_axis_by_label],
         "explanation": (
             "static (AST + interprocedural alias/effect analysis): decides the non-mutation clause of C03 — "
             "every plain spelling of an (f, f_) pair leaves its receiver, the tensors it shares and their "
